@@ -170,3 +170,80 @@ def stage_check(pid, tier, pairs, walk_stages, fun_plan, axcut_plan=None, maxste
                    assumptions=["abstract machines of DESIGN Appendix A (spec/FunMachine.tla, CoreMachine.tla, AxCutMachine.tla) define the semantics",
                                 "serializers harness/src/ser_*.rs dump the public AST fields faithfully"])
     return 1 if new else 0
+
+
+# ---------------------------------------------------------------------------------------------- stage-event traces
+def linear_facts(q):
+    """facts about a linearised AxCut program used by the capacity predicates of spec/PipelineDefs.tla"""
+    nodes = q["nodes"]
+    hasprint = any(n["k"] == "print" for n in nodes)
+    best = [0]
+    seen = set()
+
+    def walk(i, L):
+        # L = length of the environment before statement i
+        stack = [(i, L)]
+        while stack:
+            i, L = stack.pop()
+            if (i, L) in seen:
+                continue
+            seen.add((i, L))
+            n = nodes[i - 1]
+            k = n["k"]
+            best[0] = max(best[0], L)
+            if k == "substitute":
+                stack.append((n["next"], len(n["re"])))
+            elif k == "let":
+                best[0] = max(best[0], L - len(n["args"]) + 1)
+                stack.append((n["next"], L - len(n["args"]) + 1))
+            elif k == "switch":
+                for c in n["clauses"]:
+                    best[0] = max(best[0], L - 1 + len(c["ctx"]))
+                    stack.append((c["body"], L - 1 + len(c["ctx"])))
+            elif k == "create":
+                for c in n["clauses"]:
+                    best[0] = max(best[0], len(c["ctx"]) + len(n["env"]))
+                    stack.append((c["body"], len(c["ctx"]) + len(n["env"])))
+                stack.append((n["next"], L - len(n["env"]) + 1))
+            elif k in ("lit", "op"):
+                best[0] = max(best[0], L + 1)
+                stack.append((n["next"], L + 1))
+            elif k == "print":
+                stack.append((n["next"], L))
+            elif k == "ifc":
+                stack.append((n["thenc"], L))
+                stack.append((n["elsec"], L))
+    for d in q["defs"]:
+        walk(d["body"], len(d["ctx"]))
+    return {"nargs": len(q["defs"][0]["ctx"]) if q["defs"] else 0, "maxctx": best[0], "hasprint": hasprint}
+
+
+def classify_event(s):
+    if s["outcome"] == "ok":
+        return "ok"
+    if s["outcome"] == "error":
+        return {"parse": "parse_error", "check": "type_error"}.get(s["stage"], "error")
+    if any(m in s["msg"] for m in CAPACITY_MSGS):
+        return "capacity"
+    return "panic"
+
+
+def stage_traces(art, index, names=None):
+    traces = []
+    for n, e in index.items():
+        if names is not None and n not in names:
+            continue
+        p = os.path.join(art, n + ".axcutlin.json")
+        facts = linear_facts(json.load(open(p))) if os.path.exists(p) else {"nargs": 0, "maxctx": 0, "hasprint": False}
+        evs = [{"stage": s["stage"], "class": classify_event(s), "msg": s["msg"][:200]} for s in e["stages"] if s["stage"] != "build"]
+        traces.append({"name": n, "kind": "stages", "events": evs, "facts": facts})
+    return traces
+
+
+def run_stage_traces(workdir, traces):
+    wd = os.path.join(workdir, "trace")
+    os.makedirs(wd, exist_ok=True)
+    tp, cp = os.path.join(wd, "traces.json"), os.path.join(wd, "cfg.json")
+    json.dump(traces, open(tp, "w"))
+    json.dump({"reference": {"none|none": ""}}, open(cp, "w"))
+    return tlc_batch("TracePipeline", "TracePipeline.cfg", wd, {"SCCV_CASES": tp, "SCCV_CFG": cp}, len(traces), timeout=3000)
